@@ -183,6 +183,15 @@ pub struct E2eCase {
 }
 
 /// candidate loopback addresses: three IPv4, one IPv6, two IPv4-mapped IPv6
+/// A TCP socket bound to `addr` that never listens: connecting to it is refused, and nobody else can
+/// bind the address while it lives.
+pub fn bound_unlistened(addr: SocketAddr) -> std::io::Result<socket2::Socket> {
+    let domain = if addr.is_ipv4() { socket2::Domain::IPV4 } else { socket2::Domain::IPV6 };
+    let s = socket2::Socket::new(domain, socket2::Type::STREAM, None)?;
+    s.bind(&addr.into())?;
+    Ok(s)
+}
+
 pub fn table() -> Vec<IpAddr> {
     vec![
         IpAddr::V4(Ipv4Addr::new(127, 0, 0, 2)),
@@ -224,41 +233,68 @@ impl Engine for E2eEngine {
             use hyperdriver::stream::tcp::TcpStream;
             use tower::ServiceExt;
             let tab = table();
-            // listeners: all on one port number (the URI port)
+            // listeners: all on one port number (the URI port).
+            // Dead addresses: a socket that is bound but never listens refuses connections at once and
+            // keeps every other test thread and process from opening a listener on that address and
+            // port for as long as the case runs (a port that was merely bound and released can be
+            // handed out again at any moment: a thorough run once connected to a neighbour's listener).
             let mut listeners: Vec<(usize, tokio::net::TcpListener)> = vec![];
+            let mut holders: Vec<socket2::Socket> = vec![];
             let mut port = 0u16;
-            'outer: for _attempt in 0..20 {
+            let mut reserved = false;
+            'outer: for _attempt in 0..50 {
                 listeners.clear();
+                holders.clear();
                 port = 0;
-                for (i, ip) in tab.iter().enumerate() {
-                    if !case.live.get(i).copied().unwrap_or(false) {
-                        continue;
-                    }
-                    // IPv4-mapped addresses are reached through a plain IPv4 listener
-                    let bind_ip = match ip {
-                        IpAddr::V6(v6) => match v6.to_ipv4_mapped() {
-                            Some(v4) => IpAddr::V4(v4),
-                            None => *ip,
-                        },
-                        _ => *ip,
-                    };
-                    match tokio::net::TcpListener::bind(SocketAddr::new(bind_ip, port)).await {
-                        Ok(l) => {
-                            if port == 0 {
-                                port = l.local_addr().unwrap().port();
-                            }
-                            listeners.push((i, l));
+                if !case.live.iter().take(tab.len()).any(|l| *l) {
+                    match bound_unlistened(SocketAddr::new(IpAddr::V4(Ipv4Addr::LOCALHOST), 0)) {
+                        Ok(h) => {
+                            port = h.local_addr().ok().and_then(|a| a.as_socket()).map(|a| a.port()).unwrap_or(0);
+                            holders.push(h);
                         }
                         Err(_) => continue 'outer,
                     }
                 }
+                // live ones first (the first of them picks the port), then the dead ones
+                for pass in 0..2 {
+                    for (i, ip) in tab.iter().enumerate() {
+                        let live = case.live.get(i).copied().unwrap_or(false);
+                        if live != (pass == 0) {
+                            continue;
+                        }
+                        // IPv4-mapped addresses are reached through a plain IPv4 listener
+                        let bind_ip = match ip {
+                            IpAddr::V6(v6) => match v6.to_ipv4_mapped() {
+                                Some(v4) => IpAddr::V4(v4),
+                                None => *ip,
+                            },
+                            _ => *ip,
+                        };
+                        if live {
+                            match tokio::net::TcpListener::bind(SocketAddr::new(bind_ip, port)).await {
+                                Ok(l) => {
+                                    if port == 0 {
+                                        port = l.local_addr().unwrap().port();
+                                    }
+                                    listeners.push((i, l));
+                                }
+                                Err(_) => continue 'outer,
+                            }
+                        } else {
+                            match bound_unlistened(SocketAddr::new(bind_ip, port)) {
+                                Ok(h) => holders.push(h),
+                                Err(_) => continue 'outer,
+                            }
+                        }
+                    }
+                }
+                reserved = true;
                 break;
             }
-            if port == 0 {
-                // no live listener at all: pick a port that is certainly closed
-                let l = std::net::TcpListener::bind("127.0.0.1:0").map_err(|e| e.to_string())?;
-                port = l.local_addr().unwrap().port();
-                drop(l);
+            if !reserved || port == 0 {
+                // the machine is out of matching ports: nothing can be concluded from this case
+                rep.class("port-reservation-failed-inconclusive");
+                return Ok(());
             }
             // make sure nobody listens on the dead addresses at that port (ours are the only ones)
             let answer: Vec<SocketAddr> = case
@@ -333,6 +369,7 @@ impl Engine for E2eEngine {
             let live_n = order.iter().filter(|a| is_live(a)).count();
             rep.nontrivial = answer.len() >= 3 && live_n >= 1 && order.iter().position(|a| is_live(a)).unwrap_or(0) >= 1;
             drop(listeners);
+            drop(holders);
             Ok(())
         });
         if let Err(e) = res {
